@@ -47,6 +47,9 @@ def rule_once_conv(ctx):
     atoms = [models.canon_atom(a) for _, a in atoms_at(body, bb)]
     ok = any(c[0] == "pred" and c[1] == "is_valid_package_type" and c[3] is True and c[2] == (arg,) for c in atoms)
     ctx.ob("ONCE-CONV", "valid_type(x) dominates T::from_str(x) with the same x", ok, fn=key, site=body.site(bb), detail="; ".join(show_canon(c) for c in atoms)[:300])
+    # "only with a syntactically valid type substring": the guard accepts exactly the type alphabet
+    from .common import type_alphabet_obligation
+    type_alphabet_obligation(ctx, facts, "ONCE-CONV")
     # the parser's build() call is dominated by the conversion's success edge
     bk = models.build_fn(facts)
     bcalls = [(b2, t) for b2, t in body.calls() if callee_name(t["callee"]) == bk]
